@@ -1403,6 +1403,8 @@ def compare_sym_tm(tm1, tm2, *, ctx=None, depth=-1):
                 if not t2.is_comb('distinct'):
                     return False
                 l_args, r_args = hol_list.dest_literal_list(t1.arg), hol_list.dest_literal_list(t2.arg)
+                if len(l_args) != len(r_args):
+                    return False
                 res = all(helper(l_arg, r_arg, depth-1) for l_arg, r_arg in zip(l_args, r_args))
                 if res:
                     cache.add((t1._id, t2._id))
